@@ -235,6 +235,18 @@ def snapshot(sp, rmap, when):
     return out
 
 
+def shape(rmap):
+    """Structure of a whole map: per node the layers (key -> handle identity) and the sub-map keys."""
+    out = {}
+    stack = [('', rmap)]
+    while stack:
+        p, m = stack.pop()
+        out[p] = ([sorted((k, id(h)) for k, h in layer.items()) for layer in m.handles.maps], sorted(m.maps))
+        for k, sub in m.maps.items():
+            stack.append(((p + '/' if p else '') + k, sub))
+    return out
+
+
 def ids(pairs):
     return [id(h) for _, h in pairs]
 
@@ -375,7 +387,7 @@ def oracle(sp, rmap, root, tree, rules, call, nest, trim, prev, when):
 
 # --------------------------------------------------------------------------------------------- harness
 def h_populate(sp, bits=(), present=('res',), rule_dirs=('res',), exts=((), ('.txt',)), n_rules=(1,),
-               opts='call', extras=1, styles=False, second=None, mids=(), factories=1, flavours=1):
+               opts='call', extras=1, styles=False, second=None, mids=(), factories=1, flavours=1, shared_exts=False, copy_to_fresh=False):
     # ---- 1. all decisions, before any file-system work
     tree = draw_tree(sp, set(bits), set(present))
     nr = n_rules[sp.choose(len(n_rules), 'n-rules')]
@@ -389,6 +401,8 @@ def h_populate(sp, bits=(), present=('res',), rule_dirs=('res',), exts=((), ('.t
         direct = bool(styles and sp.choose(2, 'rule%d.direct' % i))
         rules.append(dict(dir=d, exts=tuple(e), args=a, kwargs=kw, direct=direct,
                           kind=FACTORY_KINDS[(kind0 + i) % len(FACTORY_KINDS)]))
+    shared = bool(shared_exts and sp.choose(2, 'one-shared-exts-list'))
+    which = sp.choose(2, 'copied-file') if copy_to_fresh else 0
     ck, kk, nest, trim = draw_opts(sp, opts, 'call0')
     root_at_call = bool(styles and sp.choose(2, 'root-at-call'))
     calls = [(kk, nest, trim, None)]
@@ -421,9 +435,16 @@ def h_populate(sp, bits=(), present=('res',), rule_dirs=('res',), exts=((), ('.t
             pop = DirectoryResourcePopulator(root, **ck)
         sp.note('DirectoryResourcePopulator(%s%s)' % ('<root>/nowhere' if root_at_call else '<root>', ''.join(
             ', %s=%r' % kv for kv in ck.items())))
+        exts_list = []          # ONE list object the caller reuses (and rewrites) for every add_rule call
         for i, r in enumerate(rules):
             fac = make_factory(i, state, r['kind'])
-            if r['direct']:
+            if shared and not r['direct']:
+                exts_list[:] = list(r['exts'])
+                pop.add_rule(r['dir'], fac, *r['args'], file_exts=exts_list, **r['kwargs'])
+                sp.note('the shared list is rewritten to %r and passed as file_exts of the next rule' % (exts_list,))
+                if i and rules[i - 1]['exts'] != r['exts']:
+                    sp.cover('shared-exts-list-changed-between-rules')
+            elif r['direct']:
                 pop.rules.append(DirectoryPopulatorRule(r['dir'], fac, list(r['args']), r['exts'],
                                                         dict(r['kwargs'])))
             else:
@@ -432,8 +453,25 @@ def h_populate(sp, bits=(), present=('res',), rule_dirs=('res',), exts=((), ('.t
                 i, r['dir'], r['kind'], r['exts'], r['args'], r['kwargs'], ' (rule object appended)' if r['direct'] else ''))
         rmap = ResourceMap()
         prev = snapshot(sp, rmap, 'initially')
+        other = other_shape = None
         for ci, (kw, nest_i, trim_i, added) in enumerate(calls):
             when = 'population %d' % ci
+            if ci and copy_to_fresh:
+                # a handle object of the populated map A is ALSO stored in a fresh map B, under the key this
+                # population will give its file; then B is populated
+                files = sorted({f for _, f in expected_instantiations(tree, rules)[0]})
+                if not files:
+                    sp.assume(False)
+                f = files[which % len(files)]
+                k_old = split_ext(f)[0] if calls[0][2] else f
+                k_new = split_ext(f)[0] if trim_i else f
+                shared_handle = rmap.get(k_old)
+                other, rmap = rmap, ResourceMap()
+                rmap[k_new] = shared_handle
+                sp.note('B = ResourceMap(); B[%r] = A.get(%r); now B is populated' % (k_new, k_old))
+                other_shape = shape(other)
+                prev = snapshot(sp, rmap, 'map B before its population')
+                sp.cover('handle-shared-%s' % ('nest' if nest_i else 'replace'))
             if added is not None:
                 d = PARENT[added]
                 todo = []
@@ -536,6 +574,10 @@ def h_populate(sp, bits=(), present=('res',), rule_dirs=('res',), exts=((), ('.t
                         not any(f.startswith(n + '/') for _, f in inst) for n in tree):
                     sp.cover('directory-without-accepted-file')
             prev = oracle(sp, rmap, root, tree, rules, ci, nest_i, trim_i, prev, when)
+            if other is not None:
+                sp.check(shape(other) == other_shape, 'other-map-unchanged',
+                         '%s of map B changed map A, which only shares one handle object with it: layers/keys '
+                         'before %r, after %r' % (when, other_shape, shape(other)))
     finally:
         shutil.rmtree(root, ignore_errors=True)
     sp.done()
@@ -571,6 +613,8 @@ PASSING_TAGS = DEFAULT_TAGS + ['clash-nest', 'clash-replace', 'trim', 'option-fa
 CASE_EXTS = ((), ('.PNG',), ('.png',), ('.PNG', '.txt'), ('.png', '.PNG'))
 CASE_TAGS = ['upper-case-filter-accepts', 'upper-case-filter-rejects-lower', 'lower-case-filter-rejects-upper',
              'trim', 'file-under-two-rules', 'clash-nest', 'clash-replace']
+SHARED_TAGS = ['shared-exts-list-changed-between-rules', 'clash-nest', 'clash-replace', 'file-under-two-rules']
+COPY_TAGS = ['handle-shared-nest', 'handle-shared-replace', 'second-population', 'clash-nest', 'clash-replace']
 THROUGH_TAGS = ['missing-below-a-file-skipped', 'missing-below-a-file-then-rule-applied', 'not-a-directory',
                 'clash-nest', 'clash-replace', 'file-under-two-rules']
 FALSY_TAGS = ['falsy-handle-clash-nest', 'falsy-handle-clash-replace', 'falsy-handle:len-0',
@@ -597,6 +641,12 @@ TIERS = {
         # (two files on one key, two rules on one file) and across two populations
         ('twice', dict(bits=('res/noext',), present=('res', 'res/a.txt', 'res/a.png'), exts=((),),
                        n_rules=(1, 2), second='call', flavours=3), dict(required=FALSY_TAGS)),
+        # the caller reuses ONE list object for file_exts and rewrites it between the add_rule calls
+        ('rules', dict(bits=('res/a.png', 'res2/c.txt'), present=('res', 'res/a.txt', 'res2'),
+                       rule_dirs=('res', 'res2'), n_rules=(2,), shared_exts=True), dict(required=SHARED_TAGS)),
+        # one handle object of a populated map A is also stored in a fresh map B, then B is populated
+        ('twice', dict(bits=('res/a.png', 'res/sub/a.txt'), present=('res', 'res/a.txt', 'res/sub'),
+                       second='call', copy_to_fresh=True), dict(required=COPY_TAGS)),
         # extension filters are case sensitive: S.PNG next to t.png, filters with .PNG / .png
         ('names', dict(bits=('res/S.PNG', 'res/t.png'), present=('res', 'res/a.txt'), exts=CASE_EXTS,
                        n_rules=(1, 2)), dict(required=CASE_TAGS)),
@@ -628,6 +678,12 @@ TIERS = {
         ('twice', dict(bits=('res/a.png', 'res/noext', 'res/sub/a.txt'), present=('res', 'res/a.txt', 'res/sub'),
                        n_rules=(1, 2), second='call', mids=('res/z.txt',), flavours=3, factories=2),
          dict(required=FALSY_TAGS)),
+        # the caller reuses ONE list object for file_exts and rewrites it between the add_rule calls
+        ('rules', dict(bits=('res/a.png', 'res2/c.txt'), present=('res', 'res/a.txt', 'res2'),
+                       rule_dirs=('res', 'res2'), n_rules=(2,), shared_exts=True), dict(required=SHARED_TAGS)),
+        # one handle object of a populated map A is also stored in a fresh map B, then B is populated
+        ('twice', dict(bits=('res/a.png', 'res/noext', 'res/sub/a.txt'), present=('res', 'res/a.txt', 'res/sub'),
+                       n_rules=(1, 2), second='call', copy_to_fresh=True), dict(required=COPY_TAGS)),
         ('names', dict(bits=('res/S.PNG', 'res/t.png', 'res/a.png', 'res/sub/a.txt'),
                        present=('res', 'res/a.txt', 'res/sub'), exts=CASE_EXTS, n_rules=(1, 2)),
          dict(required=CASE_TAGS)),
@@ -678,6 +734,8 @@ BOUNDS = {
              'or explicit None), root at construction or per call, 4 extra-argument shapes, add_rule or rule object; '
              'factories: all lists of 1-2 rules x 2 filters x nest x trim x 4 factory kinds (function, class, '
              'functools.partial, object with __call__) on one tree; '
+             'shared list: 2 rules over {res,res2} whose file_exts come from one rewritten list object; shared handle: '
+             '4 trees, populate A, store one of its handles in a fresh B under the key of its file, populate B; '
              'case: res/S.PNG and res/t.png x 1-2 rules on res with filters from {(), {.PNG}, {.png}, {.PNG,.txt}, '
              '{.png,.PNG}}; through-file: rules over {plainfile/extra, res, plainfile} (1-2 rules) on 4 trees; falsy handles: '
              'ordinary / __len__==0 / __bool__ False handles x 1-2 rules on res x two populations; '
@@ -688,7 +746,7 @@ BOUNDS = {
                 'res/sub/a.txt, res/sub/deep/, res/sub/deep/b.txt, res2/, res2/c.txt, other/, other/x) x every '
                 'single rule over {res,res2,missing,regular file,res/sub} x 2 filters x nest x trim; rules: 171 '
                 'trees x every ordered pair of such rules x nest x trim; factories: 8 trees x all lists of 1-2 rules over 4 directories x 2 filters x nest x trim x 4 factory '
-                'kinds; case: 16 trees with S.PNG, t.png, a.png, sub/a.txt x the same five filters x 1-2 rules; '
+                'kinds; shared list / shared handle as quick (8 trees, 1-2 rules for the latter); case: 16 trees with S.PNG, t.png, a.png, sub/a.txt x the same five filters x 1-2 rules; '
                 'through-file: the quick rules plan with plainfile/extra as a sixth rule directory; falsy handles: 8 '
                 'trees x 3 handle flavours x 2 factory kinds x 1-2 rules x two populations; names: 240 trees with a.tar.gz, d.txt/'
                 'e.txt, sub/a.png x 1-2 rules over {res,res/sub}; passing as quick plus a second call with every '
@@ -720,6 +778,10 @@ ASSUMPTIONS = [
     '__len__ == 0 or __bool__ False are tried)',
     'extension filters compare the extension exactly as spelled (case sensitive): {.PNG} accepts S.PNG and not '
     't.png, {.png} the reverse; the scratch file system (tmpfs/ext4) is case sensitive',
+    'a rule filters by the extensions its file_exts argument held WHEN add_rule was called; the caller may reuse '
+    'and rewrite that list afterwards',
+    'a handle object may be stored in two maps; populating one of them treats it like any older handle under '
+    'that key and leaves the other map (layers, keys, handles) untouched',
     'handle.parent / handle.key back-links are C11, not checked here',
     'an option omitted at construction has the documented default (nest_on_conflict enabled, trim_extensions '
     'False); constructing with none, one or both options is explored',
@@ -730,7 +792,8 @@ OUTSIDE = ['a file and a directory whose keys coincide after trimming (res/sub.t
            'and a map compete for one name, the statement does not say who wins',
            'symlinks, hidden files (glob skips them), case-insensitive file systems, permissions, non-UTF-8 names',
            'rule directories outside the root or equal to it, a root that is relative or does not exist',
-           'maps that already hold foreign entries before the first population',
+           'maps that already hold foreign entries before the first population, other than a handle stored under '
+           'the key of its own file',
            'trees, depths and names beyond the candidate set; more than two rules; more than two populations']
 
 TECHNIQUE = 'bounded symbolic execution (symx/z3) over file-tree presence bits, rules and options against a real temporary directory'
